@@ -264,6 +264,48 @@ def straight_line(fn, backend, env, ret_names=None, stop_at=None):
     raise TranslateError(f"{fn.name}: no return")
 
 
+def block_lets(stmts, tr, rename=lambda n: 'v_' + n):
+    """Translate a list of Assign/AugAssign statements (plain names, or tuples of names with a
+    tuple value of the same length) into [(coq name, term)]; binds the names in tr.env.
+    Stops (returns the rest) at the first statement that is something else."""
+    lets = []
+    for k, st in enumerate(stmts):
+        if isinstance(st, ast.Assign) and len(st.targets) == 1 and isinstance(st.targets[0], ast.Name):
+            v = tr.expr(st.value)
+            nm = st.targets[0].id
+            lets.append((rename(nm), v))
+            tr.env[nm] = rename(nm)
+        elif isinstance(st, ast.Assign) and len(st.targets) == 1 and isinstance(st.targets[0], ast.Tuple) \
+                and isinstance(st.value, ast.Tuple) and len(st.value.elts) == len(st.targets[0].elts) \
+                and all(isinstance(e, ast.Name) for e in st.targets[0].elts):
+            vals = [tr.expr(e) for e in st.value.elts]   # all right-hand sides first (tuple semantics)
+            for t, v in zip(st.targets[0].elts, vals):
+                lets.append((rename(t.id), v))
+            for t in st.targets[0].elts:
+                tr.env[t.id] = rename(t.id)
+        elif isinstance(st, ast.AugAssign) and isinstance(st.target, ast.Name):
+            nm = st.target.id
+            if nm not in tr.env:
+                raise TranslateError(f"augmented assignment to unbound {nm}")
+            fake = ast.BinOp(left=ast.Name(id=nm, ctx=ast.Load()), op=st.op, right=st.value)
+            v = tr.expr(fake)
+            # a fresh Coq name for every re-assignment keeps the lets well scoped
+            new = rename(nm) + "'"
+            while any(n == new for n, _ in lets):
+                new += "'"
+            lets.append((new, v))
+            tr.env[nm] = new
+        elif isinstance(st, ast.Expr) and isinstance(st.value, ast.Constant):
+            continue
+        else:
+            return lets, stmts[k:]
+    return lets, []
+
+
+def lets_text(lets, result, indent='  '):
+    return ''.join(f"{indent}let {n} := {v} in\n" for n, v in lets) + indent + result
+
+
 def find_assigns(fn, target_src):
     """all Assign statements (anywhere in fn) whose single target unparses to target_src"""
     out = []
